@@ -39,13 +39,22 @@ use std::collections::{HashMap, VecDeque};
 
 use self::{find_many_nodes::FindManyNodesContext, target_peers::PutToTargetPeersContext};
 
+#[cfg(not(feature = "verif"))]
 mod find_many_nodes;
+#[cfg(feature = "verif")]
+pub mod find_many_nodes;
 #[cfg(not(feature = "verif"))]
 mod find_node;
 #[cfg(feature = "verif")]
 pub mod find_node;
+#[cfg(not(feature = "verif"))]
 mod get_providers;
+#[cfg(feature = "verif")]
+pub mod get_providers;
+#[cfg(not(feature = "verif"))]
 mod get_record;
+#[cfg(feature = "verif")]
+pub mod get_record;
 #[cfg(not(feature = "verif"))]
 mod target_peers;
 #[cfg(feature = "verif")]
